@@ -53,10 +53,12 @@ class Fn:
             return
         self.kind[n] = k
         ty = {"nat": "Nat", "byte": "UInt8", "lanes": "State", "counterlanes": "State", "bytes": "List UInt8",
-              "bytearr": "List UInt8", "u64": "UInt64"}[k]
+              "bytearr": "List UInt8", "u64": "UInt64", "out": "List UInt8"}[k]
         self.fields.append((n, ty))
         if k == "counterlanes":
             self.fields.append(("pos", "Nat"))
+        if k == "out":
+            self.fields.append((n + "off", "Nat"))
 
     # ------------- token helpers
     def peek(self, k=0):
@@ -133,6 +135,12 @@ class Fn:
         k = self.kind.get(tok)
         if k == "byte":
             return "v.%s" % tok
+        if k == "u64" and self.peek() == ">>":
+            self.eat(">>"); n = self.nat_add()
+            return "(v.%s >>> (%s).toUInt64).toUInt8" % (tok, n)
+        if k in ("lanes", "counterlanes") and self.peek() == "[":
+            self.eat("["); idx = self.nat(); self.eat("]"); self.eat(">>"); n = self.nat_add()
+            return "(laneAt v.%s %s >>> (%s).toUInt64).toUInt8" % (tok, idx, n)
         if k in ("bytes", "bytearr") and self.peek() == "[":
             self.eat("["); e = self.nat(); self.eat("]")
             return "(v.%s.getD %s 0)" % (tok, e)
@@ -161,10 +169,17 @@ class Fn:
         return "(%s.toUInt64 <<< (%s).toUInt64)" % (b, n)
 
     def cond(self):
-        a = self.nat(); o = self.eat()
+        c = self.cond1()
+        while self.peek() == "&" and self.peek(1) == "&":
+            self.i += 2
+            c = "(%s && %s)" % (c, self.cond1())
+        return c
+
+    def cond1(self):
+        a = self.nat_shift(); o = self.eat()
         if o not in (">=", "<", ">"):
             raise TranslateError("%s: comparison %r not in subset" % (self.name, o))
-        b = self.nat()
+        b = self.nat_shift()
         return "decide (%s %s %s)" % (a, {">=": "≥", "<": "<", ">": ">"}[o], b)
 
     # ------------- statements: each returns a Lean term of type V → Option V
@@ -239,6 +254,18 @@ class Fn:
             return "(fun v => loopO (fun v => %s) (%s F fuel) fuel v)" % (c, bname)
         if tok == "return":
             self.eat(); self.ret = self.eat(); self.eat(";"); return None
+        if tok == "store64":
+            self.eat(); self.eat("("); o = self.eat()
+            if self.kind.get(o) != "out":
+                raise TranslateError("%s: store64 destination %r" % (self.name, o))
+            off = "0"
+            if self.peek() == "+":
+                self.eat(); off = self.nat()
+            self.eat(","); a = self.eat()
+            if self.kind.get(a) not in ("lanes", "counterlanes"):
+                raise TranslateError("%s: store64 source %r" % (self.name, a))
+            self.eat("["); idx = self.nat(); self.eat("]"); self.eat(")"); self.eat(";")
+            return self.upd(o, "store64At v.%s (v.%soff + %s) (laneAt v.%s %s)" % (o, o, off, a, idx))
         if tok == "KeccakF1600_StatePermute":
             self.eat(); self.eat("("); a = self.eat(); self.eat(")"); self.eat(";")
             if self.kind.get(a) not in ("lanes", "counterlanes"):
@@ -258,6 +285,8 @@ class Fn:
                     return self.upd("pos", e)
                 if op == "+=":
                     return self.upd("pos", "v.pos + %s" % e)
+                if op == "-=":
+                    return self.upd("pos", "v.pos - %s" % e)
                 raise TranslateError("%s: s_inc[25] %s" % (self.name, op))
             idx = self.nat(); self.eat("]")
             op = self.eat()
@@ -268,6 +297,11 @@ class Fn:
                 if op == "=":
                     return self.upd(name, "setLaneAt v.%s %s %s" % (name, idx, e))
                 raise TranslateError("%s: lane assignment operator %s" % (self.name, op))
+            if k == "out":
+                e = self.byte(); self.eat(";")
+                if op == "=":
+                    return self.upd(name, "v.%s.set (v.%soff + %s) %s" % (name, name, idx, e))
+                raise TranslateError("%s: output byte assignment operator %s" % (self.name, op))
             if k == "bytearr":
                 e = self.byte(); self.eat(";")
                 if op == "=":
@@ -277,6 +311,12 @@ class Fn:
                 raise TranslateError("%s: byte assignment operator %s" % (self.name, op))
             raise TranslateError("%s: indexed assignment to %r" % (self.name, name))
         op = self.eat()
+        if k == "nat" and op == "-" and self.peek() == "-":
+            self.eat(); self.eat(";")
+            return self.upd(name, "v.%s - 1" % name)
+        if k == "out" and op == "+=":
+            e = self.nat(); self.eat(";")
+            return self.upd(name + "off", "v.%soff + %s" % (name, e))
         if k == "nat":
             e = self.nat(); self.eat(";")
             if op == "=":
@@ -296,6 +336,11 @@ class Fn:
 
 FUNCS = [
     ("load64", r"const\s+uint8_t\s*\*\s*x", [("x", "bytes")], False),
+    ("store64", r"uint8_t\s*\*\s*x\s*,\s*uint64_t\s+u", [("x", "out"), ("u", "u64")], False),
+    ("keccak_squeezeblocks", r"uint8_t\s*\*\s*h\s*,\s*size_t\s+nblocks\s*,\s*uint64_t\s*\*\s*s\s*,\s*uint32_t\s+r",
+     [("h", "out"), ("nblocks", "nat"), ("s", "lanes"), ("r", "nat")], True),
+    ("keccak_inc_squeeze", r"uint8_t\s*\*\s*h\s*,\s*size_t\s+outlen\s*,\s*uint64_t\s*\*\s*s_inc\s*,\s*uint32_t\s+r",
+     [("h", "out"), ("outlen", "nat"), ("s_inc", "counterlanes"), ("r", "nat")], True),
     ("keccak_inc_absorb", r"uint64_t\s*\*\s*s_inc\s*,\s*uint32_t\s+r\s*,\s*const\s+uint8_t\s*\*\s*m\s*,\s*size_t\s+mlen",
      [("s_inc", "counterlanes"), ("r", "nat"), ("m", "bytes"), ("mlen", "nat")], True),
     ("keccak_inc_finalize", r"uint64_t\s*\*\s*s_inc\s*,\s*uint32_t\s+r\s*,\s*uint8_t\s+p",
@@ -344,6 +389,15 @@ def emit(fs):
             L.append("  match load64.run id 9 { x := x, r := 0, i := 0 } with")
             L.append("  | some v => v.%s" % f.ret)
             L.append("  | none => 0")
+        elif name == "store64":
+            L.append("/-- `store64` -/")
+            L.append("def store64.run (F : State → State) (fuel : Nat) : store64.V → Option store64.V :=")
+            L.append("  " + body)
+            L.append("/-- a call `store64(buf + off, u)` -/")
+            L.append("def store64At (buf : List UInt8) (off : Nat) (u : UInt64) : List UInt8 :=")
+            L.append("  match store64.run id 9 { x := buf, xoff := off, u := u, i := 0 } with")
+            L.append("  | some v => v.x")
+            L.append("  | none => buf")
         else:
             L.append("/-- `%s`: F = KeccakF1600_StatePermute, fuel bounds every loop -/" % name)
             L.append("def %s.run (F : State → State) (fuel : Nat) : %s.V → Option %s.V :=" % (name, name, name))
